@@ -122,6 +122,7 @@ class Interp:
         self.used_externals = set()
         self.functions_executed = set()
         self.loop_cuts_widened = set()
+        self.unrolled_in_contract_fn = set()    # functions with loop contracts in which some loop was executed WITHOUT a contract
         from . import models
         models.install(self)
         from . import cryptomodel
@@ -721,6 +722,7 @@ class Interp:
         for sp in specs:
             if head.startswith(sp.anchor):
                 return sp
+        self.unrolled_in_contract_fn.add(f.func.qualname)
         return None
 
     def st_While(self, s, f):
